@@ -181,3 +181,26 @@ Definition stf_mismatch (c : stf_case) : bool :=
   let stage (n : Z) (s : Z) : result Z := if sc_fail_at c =? n then Err (s + 1) else Ok (s + 1) in
   let (post, ok) := send_to_fx_ibc_tx Z (fun s => s + 1) (stage 1) (stage 2) (stage 3) 0 in
   negb (Bool.eqb ok (sc_obs_ok c) && Bool.eqb (negb (post =? 0)) (sc_obs_changed c)).
+
+(* ---------------- outgoing bridge calls coming back ---------------- *)
+
+(* state = (number of outgoing call records, number of refunds paid).
+   kind 0 = BridgeCallResult success, 1 = BridgeCallResult failure, 2 = the call has timed out at an observed event whose handler
+   succeeds, 3 = … whose handler fails (tolerated).  payable = the refund can be paid; found = the result's nonce exists *)
+Record oc_case := { oc_kind : Z; oc_payable : bool; oc_found : bool;
+                    oc_obs_class : Z;      (* 0 = went through, 1 = handler error tolerated, 2 = transaction failed *)
+                    oc_obs_calls : Z; oc_obs_refunds : Z }.
+Definition mk_oc_case k p f cls calls refunds : oc_case :=
+  {| oc_kind := k; oc_payable := p; oc_found := f; oc_obs_class := cls; oc_obs_calls := calls; oc_obs_refunds := refunds |}.
+Definition oc_mismatch (c : oc_case) : bool :=
+  let refund (_ : Z) (s : Z * Z) : option (Z * Z) := if oc_payable c then Some (fst s, snd s + 1) else None in
+  let del (_ : Z) (s : Z * Z) : Z * Z := (fst s - 1, snd s) in
+  let pre : Z * Z := (1, 0) in
+  let (post, cls) :=
+    if oc_kind c <? 2 then
+      let (p, ok) := result_tx (Z * Z) refund del (fun s => s) 1 (oc_found c) (oc_kind c =? 0) pre in (p, if ok then 0 else 2)
+    else
+      claim_tx_p (Z * Z) refund del (fun s => s)
+                 (fun s => Some (if oc_kind c =? 2 then Ok s else Err s)) (fun s => s) (fun s => s)
+                 (fun s => if 0 <? fst s then [1] else []) pre in
+  negb ((cls =? oc_obs_class c) && (fst post =? oc_obs_calls c) && (snd post =? oc_obs_refunds c)).
